@@ -281,6 +281,14 @@ def _nonsp(x):
     return [c for c in x if not c.isspace()]
 
 
+def _real_lines(text):
+    """the lines the real function diffs (physical lines since the repair of the form-feed defect; str.splitlines before)"""
+    from pyrefact import core
+
+    split = getattr(core, "_split_lines", None)
+    return list(split(text)) if split is not None else text.splitlines(keepends=True)
+
+
 def minimize_suite(ctx):
     import difflib
 
@@ -290,7 +298,7 @@ def minimize_suite(ctx):
     cases = minimize_cases(ctx)
     reqs = []
     for old, new in cases:
-        diffs = list(difflib.Differ().compare(old.splitlines(keepends=True), new.splitlines(keepends=True)))
+        diffs = list(difflib.Differ().compare(_real_lines(old), _real_lines(new)))
         reqs.append({"suite": "minimize", "script": [[d[0], d[2:]] for d in diffs]})
     answers = ctx.driver.ask(reqs)
     for (old, new), a in zip(cases, answers):
